@@ -13,7 +13,8 @@ EXPLANATION = (
     "(Track::new: once). Merge history: every write of merge_history lies outside natural loops, the written value "
     "contains the previous history exactly once, the source's history at most once and only under the history flag; "
     "store level: TrackStore::add delegates to add_observation / TrackBuilder::build, the worker's Merge arm forwards "
-    "Track::merge's result, merge_owned re-adds the fetched source on failure.")
+    "Track::merge's result, merge_owned re-adds the fetched source on failure. "
+    "R11.4 also requires that TrackStore::add puts a track into the shard only when no error exit is reachable afterwards; R11.5 who-may-write rows for Track.{attributes, observations, merge_history}.")
 NOT_DECIDED = ["faithfulness of the user's Clone impls (assumed)", "interior mutability inside user attribute types"]
 ASSUMPTIONS = ["Clone of TA / M / observations is a faithful snapshot", "panics are out of scope",
                "rustc nightly MIR construction"]
@@ -219,6 +220,20 @@ def store_level(ctx, R):
                   'missing track: built through TrackBuilder::build (add_observation inside)',
                   'TrackStore::add constructs a Track inline (%s) instead of going through the builder / '
                   'add_observation: optimize, validation and notification are skipped' % (raw or 'no build call'))
+        # store-level atomicity of add(): a track is put into the shard only when nothing can fail afterwards
+        from restore import exits as _exits
+        ex = {bb: kind for bb, kind, _ in _exits(add)}
+        ins = add.find_calls('std::collections::HashMap::insert') + [
+            c for c in add.find_calls() if c.name in ('or_insert', 'or_insert_with', 'insert_entry') and
+            'hash_map' in c.callee.lower()]
+        for c in ins:
+            reach = add.reach_from(c.bb)
+            bad = sorted(bb for bb, kind in ex.items() if bb in reach and kind != 'ok')
+            ctx.check(not bad, R, add, 'add:insert-only-when-nothing-can-fail-afterwards',
+                      'every exit reachable from the shard insert is Ok',
+                      'TrackStore::add inserts a track into the shard and can still return an error afterwards '
+                      '(exit block(s) %s): a failed add leaves a new (empty or half-updated) track in the store' % bad,
+                      c.ln)
     # worker Merge arm forwards Track::merge's result
     import storelib as _S
     h = ctx.anchor(R, _S.WORKER)
